@@ -200,7 +200,7 @@ func TestCheck(t *testing.T) {
 		if c.Thorough() {
 			maxTok = 5
 		}
-		c.Rule(fmt.Sprintf("E1 enumeration, first half: every body of the set B x all %d strict-encoder option combinations (ASCII quote {double,single,none=double} x S/F quote {none,double,single} x indent {two spaces, empty, tab} x binary {hex,0b literal}) with header S1F1 W, plus the 18 legal headers (stream {0,1,127} x function {0,1,2,255} x W only on odd functions) x 25 thinned bodies x all option combinations. B = empty body; ASCII items of ALL strings of length <= 2 over the 256 byte values (65,793) and of length 3-4 over the 19 grammar-relevant bytes (137,180) and over 15 bytes of multi-byte UTF-8 (U+FFFD itself, 2/3/4-byte characters, continuation / overlong / invalid bytes; 54,000); I1..I8/U1..U8/F4/F8 vectors (n=0, n=1 each value, n=2 all ordered pairs, n=3 cyclic triples) over {0,±1,min,max} resp. {0,1,max,hi-bit} resp. {±0,±1,NaN (with and without payload),±Inf,smallest subnormal,smallest normal,±max,MaxFloat32,9- and 17-significant-digit values,1/3}; binary vectors of 0..3 elements over {00,FF,01,7F,80,41} and all 256 bytes; all boolean vectors of 0..3 elements; JIS-8 text: all strings of length <= 2 over printable ASCII minus quote/backslash/angle brackets plus every byte 0x80..0xFF, length 3 over 10 symbols; localized text (5 header values): all strings of length <= 2 over the same printable ASCII plus 8 printable non-ASCII characters (2-4 UTF-8 bytes), length 3 over 10 symbols; every list tree with <= %d nodes over 13 leaves (empty list, 4 ASCII leaves incl. quotes/backslash, non-printables and '>', numerics with extremes, binary, boolean, JIS-8, localized). Oracle: NewEncoder(strict, opts).EncodeMessage then ParseStrict (and, for the default combination, the strict Parser.ParseMessage) gives exactly one message with the same stream/function/W and the same body (accessor comparison; any NaN equals any NaN; localized header ignored). Observed but not demanded (outside the stated grammar / restriction): lists with an EmptyItem child; localized text that is not valid UTF-8 or holds a non-control code point Go's %%q escapes (NBSP, soft hyphen, U+2028, BOM, private use) — counted under outcome 'observed:*'. Second half: every token sequence of length <= %d over the 26-token C14 alphabet, bare and inside 4 seeding contexts (prefix 'S1F1 W <'; that prefix with suffix '>.'; 'S1F1 W <A ' ... '>.'; 'S1F1 <L <' ... '>>.') fed to ParseStrict; every accepted text with >= 1 message (its JIS-8/localized items inside the restriction) is re-encoded with all strict option combinations and re-parsed: equal message. non-trivial = first half: non-empty body; second half: accepted text with at least one message", len(opts), map[bool]int{false: 4, true: 5}[c.Thorough()], maxTok))
+		c.Rule(fmt.Sprintf("E1 enumeration, first half: every body of the set B x all %d strict-encoder option combinations (ASCII quote {double,single,none=double} x S/F quote {none,double,single} x indent {two spaces, empty, tab} x binary {hex,0b literal}) with header S1F1 W, plus the 18 legal headers (stream {0,1,127} x function {0,1,2,255} x W only on odd functions) x 25 thinned bodies x all option combinations. plus ALL 49,152 legal headers (128 streams x 256 functions, W on odd functions) x {empty body, one small body} x all option combinations. B = empty body; ASCII items of ALL strings of length <= 2 over the 256 byte values (65,793) and of length 3-4 over the 19 grammar-relevant bytes (137,180) and over 15 bytes of multi-byte UTF-8 (U+FFFD itself, 2/3/4-byte characters, continuation / overlong / invalid bytes; 54,000); I1..I8/U1..U8/F4/F8 vectors (n=0, n=1 each value, n=2 all ordered pairs, n=3 cyclic triples) over {0,±1,min,max} resp. {0,1,max,hi-bit} resp. {±0,±1,NaN (with and without payload),±Inf,smallest subnormal,smallest normal,±max,MaxFloat32,9- and 17-significant-digit values,1/3}; binary vectors of 0..3 elements over {00,FF,01,7F,80,41} and all 256 bytes; all boolean vectors of 0..3 elements; JIS-8 text: all strings of length <= 2 over printable ASCII minus quote/backslash/angle brackets plus every byte 0x80..0xFF, length 3 over 10 symbols; localized text (5 header values): all strings of length <= 2 over the same printable ASCII plus 8 printable non-ASCII characters (2-4 UTF-8 bytes), length 3 over 10 symbols; every list tree with <= %d nodes over 13 leaves (empty list, 4 ASCII leaves incl. quotes/backslash, non-printables and '>', numerics with extremes, binary, boolean, JIS-8, localized). Oracle: NewEncoder(strict, opts).EncodeMessage then ParseStrict (and, for the default combination, the strict Parser.ParseMessage) gives exactly one message with the same stream/function/W and the same body (accessor comparison; any NaN equals any NaN; localized header ignored). Observed but not demanded (outside the stated grammar / restriction): lists with an EmptyItem child; localized text that is not valid UTF-8 or holds a non-control code point Go's %%q escapes (NBSP, soft hyphen, U+2028, BOM, private use) — counted under outcome 'observed:*'. Second half: every token sequence of length <= %d over the 26-token C14 alphabet, bare and inside 4 seeding contexts (prefix 'S1F1 W <'; that prefix with suffix '>.'; 'S1F1 W <A ' ... '>.'; 'S1F1 <L <' ... '>>.') fed to ParseStrict; every accepted text with >= 1 message (its JIS-8/localized items inside the restriction) is re-encoded with all strict option combinations and re-parsed: equal message. non-trivial = first half: non-empty body; second half: accepted text with at least one message", len(opts), map[bool]int{false: 4, true: 5}[c.Thorough()], maxTok))
 		c.Assume("accessor-level comparison (checks/c13 Same) is the notion of 'equal body'", "secs2 accessors return the stored values (C01)", "Go runtime")
 
 		if c.Replay != nil {
@@ -279,6 +279,23 @@ func TestCheck(t *testing.T) {
 			for _, b := range ThinBodies() {
 				if !runBody(h, "hdr", b) {
 					return
+				}
+			}
+		}
+
+		// ---- first half, part 3: EVERY legal header (all 128 streams x 256 functions, W on the odd
+		// ones: the codes are rendered digit by digit) on the empty body and on one small body
+		small := secs2.NewUintItem(1, 7)
+		for st := 0; st < 128; st++ {
+			for fn := 0; fn < 256; fn++ {
+				for _, w := range []bool{false, true} {
+					if w && fn%2 == 0 {
+						continue
+					}
+					h := Header{uint8(st), uint8(fn), w}
+					if !runBody(h, "hdr-all", secs2.NewEmptyItem()) || !runBody(h, "hdr-all", small) {
+						return
+					}
 				}
 			}
 		}
